@@ -56,10 +56,6 @@ def swapOp : BinOp → Option BinOp
   | .ge => some .le
   | .distinct => some .distinct
   | .notDistinct => some .notDistinct
-  | .add => some .add
-  | .mul => some .mul
-  | .and => some .and
-  | .or => some .or
   | _ => none
 
 /-! unfolding lemmas for `eval` -/
